@@ -218,6 +218,37 @@ def k_rt_single(ctx, facts, env):
         else:
             ctx.validated()
 
+    # attribute NAMES that are instances of lying str subclasses, handed to getattr / getitem / the attr filter
+    from jinja2.sandbox import ImmutableSandboxedEnvironment
+    imm = ImmutableSandboxedEnvironment()
+    lying_cases = []
+    for kind, name, astat in itertools.product(("other", "type", "function"), SYN_NAMES, ("plain", "fmt")):
+        o = ob.make_obj(kind, name, astat, "0", ob.Val("ATTR"), None)
+        if o is None or ob.attrstat(o, name) in (None, "none"):
+            continue
+        lying_cases.append((kind, name, o, None))
+    for cont, mname in (([1], "append"), ({"a": 1}, "update"), ({1}, "add"), ([1], "index"), ([1], "__class__")):
+        lying_cases.append(("container:" + type(cont).__name__, mname, cont, "immutable"))
+    for (kind, name, o, which), (nkind, mk) in itertools.product(lying_cases, ob.NAME_KINDS.items()):
+        e = imm if which == "immutable" else env
+        lname = mk(name)
+        for fn_name, fn in (("ga", lambda: e.getattr(o, lname)), ("gi", lambda: e.getitem(o, lname)), ("da", lambda: jf.do_attr(e, o, lname))):
+            if nkind == "str-returns-lying" and fn_name != "gi":
+                continue      # only getitem calls str() on the name; getattr / the attr filter use its content ("safe")
+            r, exc = ob.call_classified(fn)
+            real = exc or ob.classify(r)
+            unsafe_name = name.startswith("_") or bool(sb.is_internal_attribute(o, name)) or spec_internal(o, name) \
+                or (which == "immutable" and bool(sb.modifies_known_mutable(o, name)))
+            case = {"kind": "access", "fn": fn_name + "-" + nkind, "object": kind, "name": name, "attr": "plain", "item": "0"}
+            ctx.case(sample=case if unsafe_name and fn_name == "da" and len(ctx.samples) < 6 else None,
+                     key=("rt-lying", fn_name, nkind, kind, name) if unsafe_name else None)
+            ctx.count("k_rt_lying_name")
+            if unsafe_name and real in ("handout", "value", "format"):
+                reject_once(ctx, case, f"{fn_name} with the name {name!r} given as a {nkind} str subclass on a {kind}: the value of an unsafe "
+                                       f"attribute was handed out ({real})", f"C17:access:{fn_name}:{nkind}:{name}")
+            else:
+                ctx.validated()
+
     objs, close = ob.real_objects()
     try:
         for kind, o in objs.items():
@@ -559,7 +590,8 @@ def first_unsafe_step(value, chain, form):
     return None
 
 
-CORE_PATHS = ("macro-param-named-loop", "real-loop-variable", "dot", "subscript", "attr-filter", "call", "format-attr", "format-stored", "map-attribute", "subscript-strsubclass",
+SECONDARY_BASES = ("fr", "co", "tb", "cr", "ag", "rz", "dynall", "tup[0]", "d.o", "lst[0]")
+CORE_PATHS = ("attr-filter-lying-startswith", "attr-filter-lying-eq", "subscript-str-returns-lying", "macro-param-named-loop", "real-loop-variable", "dot", "subscript", "attr-filter", "call", "format-attr", "format-stored", "map-attribute", "subscript-strsubclass",
               "sort-multi", "loop-over", "index-dotted", "trans-variable")
 
 
@@ -619,7 +651,7 @@ def literal_stream(ctx):
             for form in ("dot", "subscript", "attrf"):
                 for env, mode in (("sandboxed", "sync"), ("immutable", "async")):
                     cases.append({"kind": "literal", "literal": li, "chain": [n], "form": form, "wrap": "print", "env": env, "mode": mode})
-    for _ in range(ctx.size(1200, 12000)):
+    for _ in range(ctx.size(800, 12000)):
         depth = rng.randint(2, 3)
         chain = [rng.choice(LIT_UNSAFE + LIT_PUBLIC + LIT_UNSAFE) for _ in range(depth)]
         cases.append({"kind": "literal", "literal": rng.randrange(len(LITERALS)), "chain": chain, "form": rng.choice(LIT_FORMS),
@@ -752,7 +784,7 @@ def run(ctx):
         k_rt_single(ctx, facts, env)
         k_rt_paths(ctx, facts, env)
     lap("k_attr_rt_paths")
-    k_gen(ctx, jinja2, ctx.size(1500, 15000), ctx.size(250, 2500), "C17")
+    k_gen(ctx, jinja2, ctx.size(1000, 15000), ctx.size(200, 2500), "C17")
     lap("k_gen")
     envs = make_render_envs()
     names = ob.PRIVATE_NAMES + ob.PUBLIC_NAMES
@@ -762,7 +794,9 @@ def run(ctx):
         if "%(b)s" not in ob.ACCESS[path] and b != "o":
             continue          # a path with a fixed base object is one case, not one per base
         h = hash_of(b, n, path, mode)
-        if ctx.tier != "thorough" and path not in CORE_PATHS and h % 8 != 0:
+        if ctx.tier != "thorough" and path not in CORE_PATHS and (h % 16 != 0 or b in SECONDARY_BASES):
+            continue          # quick tier: secondary bases along the core paths only
+        if ctx.tier != "thorough" and path in CORE_PATHS and b in SECONDARY_BASES and h % 2 != 0:
             continue          # quick tier: the core paths for every (base, name), the other paths sampled
         case = {"kind": "render", "base": b, "name": n, "path": path, "mode": mode,
                 "config": RENDER_CONFIGS[h % len(RENDER_CONFIGS)], "entry": RENDER_ENTRIES[(h // 7) % len(RENDER_ENTRIES)],
